@@ -43,7 +43,7 @@ func fieldsWritten(w *World, f *FuncInfo, depth int, seen map[*FuncInfo]bool, ou
 		})
 		return hit
 	}
-	ast.Inspect(f.Body(), func(x ast.Node) bool {
+	InspectBody(f, func(x ast.Node) bool {
 		switch s := x.(type) {
 		case *ast.AssignStmt:
 			for _, l := range s.Lhs {
@@ -91,7 +91,7 @@ func (nr NoRangeMutation) Check(r *Run) {
 		for _, f := range r.W.AllFuncs(pkg) {
 			info := f.Info()
 			occ := 0
-			ast.Inspect(f.Body(), func(x ast.Node) bool {
+			InspectBody(f, func(x ast.Node) bool {
 				rs, ok := x.(*ast.RangeStmt)
 				if !ok {
 					return true
